@@ -80,6 +80,8 @@ Definition T (name : Z) (cols : list (bool * Z)) (pk : option (list Z)) (fks : l
   mkTable (zn name) (map (fun c => mkCol (fst c) (dv (snd c))) cols)
           (match pk with Some l => Some (zns l) | None => None end) fks [].
 Definition INS (t : Z) (rows : list (list Z)) : stmt := SInsert (zn t) (drs rows).
+Definition INSSEL (dst src : Z) (simple : bool) (sel : list (list Z)) : stmt :=
+  SInsertSelect (zn dst) (zn src) simple (drs sel).
 Definition UPD (t : Z) (asg : list (Z * expr)) (w : option pred) : stmt :=
   SUpdate (zn t) (map (fun a => (zn (fst a), snd a)) asg) w.
 Definition DEL (t : Z) (w : option pred) : stmt := SDelete (zn t) w.
